@@ -84,3 +84,35 @@ pub fn model_calc(m: &mut crate::model::Model, l: &[GTx], year: Option<i32>, ex:
     let resp = m.ask(&format!("calc {} {} {}", y, exemptions_wire(ex), ledger::wire(l)));
     rep::parse_report(&resp)
 }
+
+pub type RawMatch = (Vec<cgt_core::matcher::MatchResult>, HashMap<String, cgt_core::Section104Holding>);
+
+pub fn impl_match_raw(l: &[GTx]) -> Result<Result<RawMatch, cgt_core::CgtError>, String> {
+    let gbp = ledger::to_gbps(l);
+    catch_unwind(AssertUnwindSafe(|| Matcher::new().process(gbp))).map_err(panic_msg)
+}
+
+/// the model's `reportFrom` applied to the implementation's own matcher output
+pub fn model_report_from(m: &mut crate::model::Model, raw: &RawMatch, l: &[GTx], year: Option<i32>, ex: &[(u16, Decimal)]) -> Result<Out<RRep>, String> {
+    use crate::q::Q;
+    let y = match year { Some(y) => y.to_string(), None => "-".into() };
+    let mut toks: Vec<String> = Vec::new();
+    let fd = |d: chrono::NaiveDate| format!("{}-{}-{}", chrono::Datelike::year(&d), chrono::Datelike::month(&d), chrono::Datelike::day(&d));
+    for mr in &raw.0 {
+        let md = &mr.match_detail;
+        toks.push(format!("L,{},{},{},{},{},{},{},{},{}", mr.disposal_ticker, fd(mr.disposal_date), rep::rule_name(&md.rule),
+            Q::from_dec(md.quantity).wire(), Q::from_dec(md.allowable_cost).wire(), Q::from_dec(mr.gross_proceeds).wire(),
+            Q::from_dec(mr.proceeds).wire(), Q::from_dec(md.gain_or_loss).wire(),
+            md.acquisition_date.map(fd).unwrap_or_else(|| "-".into())));
+    }
+    let mut hs: Vec<_> = raw.1.values().collect();
+    hs.sort_by(|a, b| a.ticker.cmp(&b.ticker));
+    for h in hs {
+        toks.push(format!("H,{},{},{}", h.ticker, Q::from_dec(h.quantity).wire(), Q::from_dec(h.total_cost).wire()));
+    }
+    for t in l.iter().filter(|t| t.kind == crate::ledger::Kind::Dividend) {
+        toks.push(t.wire());
+    }
+    let resp = m.ask(&format!("report {} {} {}", y, exemptions_wire(ex), toks.join(" ")));
+    rep::parse_report(&resp)
+}
